@@ -4,7 +4,8 @@ import PsV.Generated.C19
 # C19 — what the reader and `convolve` request from the allocator, and what `estimateMemory` promises
 
 The call sites, their order, their loops and every size expression come from `PsV.Generated.C19` (translated
-from the source on every run).  Hand-written here: how a loop nest turns into an event sequence (`interp`),
+from the source on every run).  Hand-written here: how a loop nest turns into an event sequence (`interp`; a call under an `if` inside a loop body
+is executed when its generated condition holds),
 the shape `convolve` installs (`convDims`, mirroring `convorder`, `n_rho`, `naxes[dim] = n_rho-convorder-1`),
 and how `estimateMemory` combines its generated terms (`estimate`).
 -/
@@ -33,12 +34,12 @@ def topEnv (p : Params) (newDims cur : List Dim) : SiteEnv :=
     and whose shape after `.updateShape` is `newDims`. -/
 def interp (p : Params) (newDims : List Dim) : List Dim → List Block → List Event
   | _, [] => []
-  | cur, .one s :: bs => evalSite (topEnv p newDims cur) s :: interp p newDims cur bs
+  | cur, .one s :: bs => evalSites (topEnv p newDims cur) [s] ++ interp p newDims cur bs
   | cur, .forAux body :: bs =>
-      p.aux.flatMap (fun a => body.map (evalSite { topEnv p newDims cur with keylen := a.keylen, valuelen := a.vallen }))
+      p.aux.flatMap (fun a => evalSites { topEnv p newDims cur with keylen := a.keylen, valuelen := a.vallen, storedlen := a.storedlen } body)
         ++ interp p newDims cur bs
   | cur, .forDim body :: bs =>
-      cur.flatMap (fun d => body.map (evalSite { topEnv p newDims cur with nknots := d.nknots, order := d.order }))
+      cur.flatMap (fun d => evalSites { topEnv p newDims cur with nknots := d.nknots, order := d.order } body)
         ++ interp p newDims cur bs
   | _, .updateShape :: bs => interp p newDims newDims bs
 
@@ -47,6 +48,16 @@ def readEvents (p : Params) : List Event := interp p p.dims p.dims readBlocks
 
 /-- What `convolve(cdim, kernel, n)` requests afterwards. -/
 def convolveEvents (p : Params) : List Event := interp p (convDims p) p.dims convolveBlocks
+
+/-! ## validation -/
+
+/-- `read_fits_core` accepts the shape of the file: in no dimension does the (generated) condition hold under which
+    the reader throws "inconsistent numbers of knots and coefficients".  Since that check exists every file that
+    can be loaded at all satisfies it. -/
+def loadable (p : Params) : Bool := p.dims.all fun d => !readerRejects d.nknots d.order d.naxes
+
+/-- `convolve(cdim, kernel, n)` passes its argument checks on the table loaded from the file. -/
+def convolvable (p : Params) : Bool := !convolveRejects p.cdim p.dims.length p.n
 
 /-! ## estimateMemory -/
 
